@@ -216,7 +216,9 @@ bool StepScript(InterpreterEnv& env)
             // stack cannot be empty here, because if it was the
             // P2SH  HASH <> EQUAL  scriptPubKey would be evaluated with
             // an empty stack and the EvalScript above would return false.
-            assert(!stack.empty());
+            // (in a debugging session `exec` can fill the stack after an empty start, so this is checked, not asserted)
+            if (stack.empty())
+                return set_error(serror, SCRIPT_ERR_INVALID_STACK_OPERATION);
 
             const valtype& pubKeySerialized = stack.back();
             CScript pubKey2(pubKeySerialized.begin(), pubKeySerialized.end());
